@@ -15,6 +15,12 @@ def main():
     ap.add_argument("--replay", default=None)
     a = ap.parse_args()
     pid = a.pid.upper()
+    # one check of a property per tree at a time (they share scratch directories under RUN_ROOT)
+    import fcntl
+    from harness.lib.coqrun import RUN_ROOT
+    os.makedirs(RUN_ROOT, exist_ok=True)
+    lock = open(os.path.join(RUN_ROOT, ".lock-" + pid), "w")
+    fcntl.flock(lock, fcntl.LOCK_EX)
     mod = importlib.import_module("harness.props." + pid.lower())
     ctx = Ctx(pid, tier=a.tier, seed=a.seed)
     if a.replay:
